@@ -4,8 +4,7 @@ import LexVerif.Proof.ParseNumberDebugRescanFacts
 ANY separator predicate except I+T+C (I+T+C on the integer allowed when there is no base prefix)
 
 Parallel to `Proof/ParseNumberDebug{Phases,Main,Api}.lean` (`Good` iterators); here the per-component hypothesis is
-`CompOk`, the statement is about the entry points (digit counts 0, the cursor in a state `peek` left), the input bytes
-are `< 256`, and `Bytes` is not contiguous (otherwise every iterator is `PeekTriv` and the old chain applies).
+`CompOk`, the statement is about the entry points (digit counts 0, the cursor in a state `peek` left), and `Bytes` is not contiguous (otherwise every iterator is `PeekTriv` and the old chain applies).
 -/
 set_option linter.unusedSimpArgs false
 set_option linter.unusedVariables false
@@ -46,7 +45,7 @@ structure IntOk2 (c : Cfg) (b : Bytes) (ip : IntPart) : Prop where
 theorem integerPhase_safe2 (cx : Ctx c) (hbc : c.bytesContiguous = false) (hI : CompOk c .integer (c.basePrefix = 0))
     (hpre : c.basePrefix ≠ 0 → ∀ y, matchesB y c.basePrefix c.caseSensitiveBasePrefix = true →
       c.isDigit y = false ∧ c.isSep y = false)
-    (b : Bytes) (hb : Bytes.Valid b) (h256 : ∀ x ∈ b.slc, x < 256) (hic : b.ic = 0) (hpost : Alt23 c .integer b) :
+    (b : Bytes) (hb : Bytes.Valid b) (hic : b.ic = 0) (hpost : Alt23 c .integer b) :
     Safe (integerPhase c b) (IntOk2 c b) := by
   have hf := format_of_nbc cx hbc
   unfold integerPhase
@@ -99,9 +98,8 @@ theorem integerPhase_safe2 (cx : Ctx c) (hbc : c.bytesContiguous = false) (hI : 
         subst hb1
         have hLe : L = b2.index - b1.index := by rw [← hL]; simp [hf, hnc]
         rw [hLe]
-        have h256s : ∀ x ∈ b1.slc, x < 256 := by rw [hadv0.slc]; exact h256
         have hcnt : Bytes.iterCount c .integer b1 = 0 := by simp [Bytes.iterCount, hnc, hsic, hic]
-        exact firstPass_sliceRun cx hf .integer (by decide) p hk b1 b2 ds hadv0.valid' h256s hcnt hstartC
+        exact firstPass_sliceRun cx hf .integer (by decide) p hk b1 b2 ds hadv0.valid' hcnt hstartC
           (hp.imp id hnopre) hdeq
 
 /-! ## fraction phase -/
@@ -112,7 +110,7 @@ structure FracOk2 (c : Cfg) (byte : Bytes) (fp : FracPart) : Prop where
 
 theorem fractionPhase_safe2 (cx : Ctx c) (hbc : c.bytesContiguous = false) (hF : CompOk c .fraction False) (o : POpts)
     (hdp : o.dp ≠ c.fmt.digitSeparator) (hdpd : c.isDigit o.dp = false) (byte : Bytes) (m : Nat)
-    (hb : Bytes.Valid byte) (h256 : ∀ x ∈ byte.slc, x < 256) (hfc : byte.fc = 0) :
+    (hb : Bytes.Valid byte) (hfc : byte.fc = 0) :
     Safe (fractionPhase c o byte m) (FracOk2 c byte) := by
   have hf := format_of_nbc cx hbc
   unfold fractionPhase
@@ -178,7 +176,7 @@ theorem fractionPhase_safe2 (cx : Ctx c) (hbc : c.bytesContiguous = false) (hF :
           rcases hp with h | h
           · exact h
           · exact h.elim
-        exact firstPass_sliceRun cx hf .fraction (by decide) p hk _ b2 ds hadv0.valid' h256 hcnt hstartC (Or.inl hp') hdeq
+        exact firstPass_sliceRun cx hf .fraction (by decide) p hk _ b2 ds hadv0.valid' hcnt hstartC (Or.inl hp') hdeq
   · exact ⟨adv_refl hb, by simp⟩
 
 /-! ## the many-digits re-scan -/
@@ -278,7 +276,7 @@ theorem parseNumber_safe2 (cx : Ctx c) (hbc : c.bytesContiguous = false) (hI : C
     (hpre : c.basePrefix ≠ 0 → ∀ y, matchesB y c.basePrefix c.caseSensitiveBasePrefix = true →
       c.isDigit y = false ∧ c.isSep y = false)
     (isPartial : Bool) (o : POpts) (ox : OCtx c o) (hdpd : c.isDigit o.dp = false) (b : Bytes) (neg : Bool)
-    (hb : b.index < b.slc.length) (h256 : ∀ x ∈ b.slc, x < 256) (hic : b.ic = 0) (hfc : b.fc = 0)
+    (hb : b.index < b.slc.length) (hic : b.ic = 0) (hfc : b.fc = 0)
     (hpost : Alt23 c .integer b) :
     Safe (parseNumber c isPartial o b neg) (fun r => r.2 ≤ b.slc.length) := by
   have hv : Bytes.Valid b := Nat.le_of_lt hb
@@ -289,11 +287,10 @@ theorem parseNumber_safe2 (cx : Ctx c) (hbc : c.bytesContiguous = false) (hI : C
   unfold parseNumber
   have h1 : b.isBufferEmpty = false := by simp [Bytes.isBufferEmpty]; omega
   simp only [h1, Bool.not_true, Bool.and_false, Bool.false_eq_true, if_false]
-  refine Safe.bind (integerPhase_safe2 cx hbc hI hpre b hv h256 hic hpost) ?_
+  refine Safe.bind (integerPhase_safe2 cx hbc hI hpre b hv hic hpost) ?_
   intro ip hip
-  have hslc : ip.byte.slc = b.slc := by rw [hip.advByte.slc, hip.advStart.slc]
   refine Safe.bind (fractionPhase_safe2 cx hbc hF o hdp hdpd ip.byte ip.mantissa hip.advByte.valid'
-    (by rw [hslc]; exact h256) (by rw [hip.fc]; exact hfc)) ?_
+    (by rw [hip.fc]; exact hfc)) ?_
   intro fp hfp
   split
   · obtain ⟨⟨v, b1⟩, hp⟩ := peek_ok cx .integer ip.start
@@ -369,11 +366,11 @@ theorem parseCompleteNumber_safe2 (cx : Ctx c) (hbc : c.bytesContiguous = false)
     (hpre : c.basePrefix ≠ 0 → ∀ y, matchesB y c.basePrefix c.caseSensitiveBasePrefix = true →
       c.isDigit y = false ∧ c.isSep y = false)
     (o : POpts) (ox : OCtx c o) (hdpd : c.isDigit o.dp = false) (b : Bytes) (neg : Bool)
-    (hb : b.index < b.slc.length) (h256 : ∀ x ∈ b.slc, x < 256) (hic : b.ic = 0) (hfc : b.fc = 0)
+    (hb : b.index < b.slc.length) (hic : b.ic = 0) (hfc : b.fc = 0)
     (hpost : Alt23 c .integer b) :
     Safe (parseCompleteNumber c o b neg) (fun _ => True) := by
   unfold parseCompleteNumber
-  refine Safe.bind (parseNumber_safe2 cx hbc hI hF hpre false o ox hdpd b neg hb h256 hic hfc hpost) ?_
+  refine Safe.bind (parseNumber_safe2 cx hbc hI hF hpre false o ox hdpd b neg hb hic hfc hpost) ?_
   rintro ⟨n, count⟩ _
   simp only
   split
@@ -386,8 +383,7 @@ theorem parseFloatSyntax_safe2 (cx : Ctx c) (hbc : c.bytesContiguous = false)
     (hI : CompOk c .integer (c.basePrefix = 0)) (hF : CompOk c .fraction False)
     (hpre : c.basePrefix ≠ 0 → ∀ y, matchesB y c.basePrefix c.caseSensitiveBasePrefix = true →
       c.isDigit y = false ∧ c.isSep y = false)
-    (o : POpts) (ox : OCtx c o) (hdpd : c.isDigit o.dp = false) (isPartial : Bool) (input : List Nat)
-    (h256 : ∀ x ∈ input, x < 256) :
+    (o : POpts) (ox : OCtx c o) (hdpd : c.isDigit o.dp = false) (isPartial : Bool) (input : List Nat) :
     Safe (parseFloatSyntax c o isPartial input) (fun _ => True) := by
   have hf := format_of_nbc cx hbc
   unfold parseFloatSyntax
@@ -403,7 +399,6 @@ theorem parseFloatSyntax_safe2 (cx : Ctx c) (hbc : c.bytesContiguous = false)
   obtain ⟨c1, c2, c3, hpost⟩ := isConsumed_facts cx hf .integer b1 b2 consumed hadv1.valid' hceq
   have hic : b2.ic = 0 := by rw [c1, s1]; rfl
   have hfc : b2.fc = 0 := by rw [c2, s2]; rfl
-  have h256b : ∀ x ∈ b2.slc, x < 256 := by rw [c3, s3]; exact h256
   simp only
   split
   · split
@@ -412,7 +407,7 @@ theorem parseFloatSyntax_safe2 (cx : Ctx c) (hbc : c.bytesContiguous = false)
   · next hc =>
     have hlt := hne (by simpa using hc)
     split
-    · have h := parseNumber_safe2 cx hbc hI hF hpre true o ox hdpd b2 neg hlt h256b hic hfc hpost
+    · have h := parseNumber_safe2 cx hbc hI hF hpre true o ox hdpd b2 neg hlt hic hfc hpost
       cases hres : parseNumber c true o b2 neg with
       | ok r => trivial
       | error e =>
@@ -427,7 +422,7 @@ theorem parseFloatSyntax_safe2 (cx : Ctx c) (hbc : c.bytesContiguous = false)
           · exact Safe.err
         | panic t => exact h.elim
         | fault t => exact h.elim
-    · have h := parseCompleteNumber_safe2 cx hbc hI hF hpre o ox hdpd b2 neg hlt h256b hic hfc hpost
+    · have h := parseCompleteNumber_safe2 cx hbc hI hF hpre o ox hdpd b2 neg hlt hic hfc hpost
       cases hres : parseCompleteNumber c o b2 neg with
       | ok r => trivial
       | error e =>
